@@ -40,3 +40,15 @@ Definition reattach_ops : list op :=
   [ONewMsg 1; ONewMsg 2; ONewStd 4; ONewStd 8; OAppend 0 0; OAppend 1 1; OAppend 1 0].
 Lemma reattach_breaks : msg_wfb (run reattach_ops) 0 = false.
 Proof. vm_compute. reflexivity. Qed.
+
+(* constructor overflow: NewMessage computes sizeByte * 8 in a 64-bit int. A message of -2^60-1 bytes gets a
+   layout of 2^63-8 bits and accepts a signal at bit 100, outside its (negative) payload; a message of 2^61
+   bytes gets a layout of 0 bits and refuses a 1-bit signal that fits its payload. *)
+Definition ctor_ops : list op :=
+  [ONewMsg (-1152921504606846977); ONewStd 1; OInsert 0 0 100].
+Lemma ctor_breaks : msg_wfb (run ctor_ops) 0 = false.
+Proof. vm_compute. reflexivity. Qed.
+Definition ctor_refuse_ops : list op := [ONewMsg 2305843009213693952; ONewStd 1].
+Lemma ctor_refuses : snd (step (run ctor_refuse_ops) (OAppend 0 0)) = RErr OutOfBounds
+  /\ 0 + sz (run ctor_refuse_ops) 0 <= 8 * gbytes (run ctor_refuse_ops) 0.
+Proof. vm_compute. split; [reflexivity|discriminate]. Qed.
